@@ -30,8 +30,29 @@ def all_enforced_problem(rng):
     return dict(sequence=seq, constraints=descs, objectives=[], settings=problems.rand_settings(rng), np_seed=rng.randint(0, 10 ** 6))
 
 
+def kmers_with_partial_reference(rng):
+    """a k-mer uniqueness constraint whose reference covers only part of its location (allowed by its documentation),
+    and another constraint breached in the part of the location that the reference does not cover"""
+    from gen import hard
+    n = rng.randint(30, 50)
+    seq = list(hard.rand_seq(rng, n))
+    site = rng.choice(["GGTCTC", "GAATTC", "ACGT"])
+    pos = rng.randint(0, 6)
+    seq[pos:pos + len(site)] = site
+    seq = "".join(seq)
+    k = rng.choice([3, 4, 5])
+    cons = [dict(kind="kmers", k=k, location=[0, rng.randint(2 * n // 3, n), 0], rc=rng.random() < 0.5,
+                 reference=[rng.randint(n // 2, n - 8), n]),
+            dict(kind="pattern", pattern=site, location=None)]
+    rng.shuffle(cons)
+    return dict(sequence=seq, constraints=cons, objectives=[], settings=problems.rand_settings(rng), np_seed=rng.randint(0, 10 ** 6))
+
+
 def gen_cases(rng, n):
     for i in range(n):
+        if i % 12 == 7:
+            yield dict(desc=kmers_with_partial_reference(rng), op="resolve")
+            continue
         if i % 6 == 5:
             yield dict(desc=all_enforced_problem(rng), op="resolve")
             continue
